@@ -115,17 +115,24 @@ func c02Eval(root *inproc.Root, p Prog, st *pcStats) *pcFail {
 const c02Rules = "# header\nSecRule ARGS \"@rx OLD\" \\\n    \"id:123456,\\\n    phase:2,\\\n    deny\"\n"
 
 func C02(r *core.Run) {
-	spec := sweepSpec{Tokens: c02Tokens, One: r.Pick(3, 4), Two: 2, Three: r.Thorough(), StructLen: 0, Mixed: true, FullHdr: 2}
+	shrinkAllowFlags = true
+	spec := sweepSpec{Tokens: c02Tokens, One: r.Pick(3, 4), Two: 2, Three: r.Thorough(), StructLen: 0, Mixed: true, FullHdr: 2, Flags: true}
+	if r.Degraded() {
+		spec = sweepSpec{Tokens: c02Tokens, One: 2, Two: 1, FullHdr: 1, Flags: true}
+	}
 	pc := progCheck{Name: "C02", Spec: spec, Tree: c01Tree(), Eval: c02Eval,
-		ConfSpec: sweepSpec{Tokens: c02Tokens, One: 2, FullHdr: 0}}
+		ConfSpec: sweepSpec{Tokens: c02Tokens, One: 2, FullHdr: 0, Flags: true}}
 	res, cleanup := pc.run(r)
 	defer cleanup()
+	if r.Abandon() {
+		return
+	}
 	// second observation point: the operand written by `regex update` is the generated text, byte for byte
 	type rtRes struct {
 		Text, Out, Got string
 		OK, Skipped   bool
 	}
-	rt, deaths := core.Parallel(r, "roundtrip", pcIn{Spec: sweepSpec{Tokens: c02Tokens, One: 2, FullHdr: 1}}, r.Workers, func(in pcIn, shard, n int, emit func(rtRes)) {
+	rt, deaths := core.Parallel(r, "roundtrip", pcIn{Spec: sweepSpec{Tokens: c02Tokens, One: 2, FullHdr: 1, Flags: true}}, r.Workers, func(in pcIn, shard, n int, emit func(rtRes)) {
 		d := core.Scratch("c02rt")
 		defer os.RemoveAll(d)
 		in.Spec.programs(shard, n, func(_ string, p Prog) {
